@@ -115,11 +115,11 @@ theorem apng_wf_gen (cfg : Cfg) (hI : cfg.InflateOk) (hC : cfg.CrcOk) {t : TCfg}
     obtain ⟨hfit1, hfit2⟩ := frame_fits h hd fc0 (by have := hfc0.xw; omega) (by have := hfc0.yh; omega)
     have hszI : outLineSize t i f i.width * i.height = h.bufferSize := by
       rw [outLineSize_id ht, c1, c2, c3, c4, ← rowBytes_eq h hd]; rfl
-    obtain ⟨r', buf0, hstep, hspec, hblen, hP', hcaf', hdec', hav', hrem', hse', hca'⟩ :=
+    obtain ⟨r', buf0, hstep, hspec, hblen, hP', hcaf', hdec', hav', hrem', hse', hca', hcur'⟩ :=
       nextFrameOp_ready cfg ht i hlegi (by rw [hdims]; exact hfc0.w1) (by rw [hdims]; exact hfc0.h1) N raw0 dEnd restN r p0
         hR hpb hrd (by rw [hhdr]; exact hraw0) (by rw [hhdr, hszI]; exact hfit2)
     have hB : Between cfg f h r' i 1 frames := by
-      refine ⟨hcore, ?_, ?_, ?_, ?_, ?_, hcaf', by omega, hse'.flags.trans hR.flags, hse'.isReader.trans hrd,
+      refine ⟨hcore, ?_, ?_, ?_, ?_, ?_, hcaf', hcur', by omega, hse'.flags.trans hR.flags, hse'.isReader.trans hrd,
         hse'.pendingBuf.trans hpb, hca'⟩
       · rw [hdec', hLn, hTn]; exact hflu
       · rw [hav', hRn]
@@ -200,11 +200,11 @@ theorem apng_default_wf_gen (cfg : Cfg) (hI : cfg.InflateOk) (hC : cfg.CrcOk) {t
       rw [hN, hactl, hfctl]; simp
     have hszI : outLineSize t i f i.width * i.height = h.bufferSize := by
       rw [outLineSize_id ht, c1, c2, c3, c4, ← rowBytes_eq h hd]; rfl
-    obtain ⟨r', buf0, hstep, hspec, hblen, hP', hcaf', hdec', hav', hrem', hse', hca'⟩ :=
+    obtain ⟨r', buf0, hstep, hspec, hblen, hP', hcaf', hdec', hav', hrem', hse', hca', hcur'⟩ :=
       nextFrameOp_ready cfg ht i hlegi (by rw [hdims]; exact hw1) (by rw [hdims]; exact hh1) N raw0 dEnd restN r p0
         hR hpb hrd (by rw [hhdr]; exact hraw0) (by rw [hhdr, hszI]; exact Nat.le_refl _)
     have hB : Between cfg f h r' i 0 frames := by
-      refine ⟨hcore, ?_, ?_, ?_, ?_, ?_, hcaf', by omega, hse'.flags.trans hR.flags, hse'.isReader.trans hrd,
+      refine ⟨hcore, ?_, ?_, ?_, ?_, ?_, hcaf', hcur', by omega, hse'.flags.trans hR.flags, hse'.isReader.trans hrd,
         hse'.pendingBuf.trans hpb, hca'⟩
       · rw [hdec', hLn, hTn]; exact hflu
       · rw [hav', hRn]
